@@ -1,16 +1,24 @@
 #!/bin/sh
-# usage: seeded_verify.sh <ID> : verify a red-team result: patch /tmp/mut/out_<ID>/patch.diff applied to a clean
-# checkout in /tmp/mut/<ID>; suite must stay green, demo must fail with the patch and pass without
+# usage: tools/seeded_verify.sh <seeded-id>
+# Re-verifies a seeded change from /verif/seeded/<id> on a scratch worktree of /repo's HEAD (created under
+# /tmp and removed again): the patch applies, the crate builds with and without the hook cfg, the
+# repository's own suite stays green with the patch, and the demonstration (demo.rs, copied to tests/)
+# fails with the patch and passes without it.
 set -u
-P=$1; WT=/tmp/mut/$P; OUT=/tmp/mut/out_$P
-cd $WT || exit 2
-git checkout -q -- . ; git clean -qfd tests src 2>/dev/null
-git apply $OUT/patch.diff || { echo "patch does not apply"; exit 2; }
+id="$1"; dir="/verif/seeded/$id"
+[ -f "$dir/patch.diff" ] || { echo "no such seeded change: $id"; exit 2; }
+WT=$(mktemp -d /tmp/seedverify.XXXXXX); rmdir "$WT"
+git -C /repo worktree add -q --detach "$WT" HEAD || exit 2
+trap 'git -C /repo worktree remove --force "$WT" >/dev/null 2>&1; rm -rf "$WT"' EXIT
+cd "$WT" || exit 2
+export CARGO_NET_OFFLINE=true CARGO_TARGET_DIR="$WT/target"
+git apply "$dir/patch.diff" || { echo "patch does not apply"; exit 2; }
 echo "== patch: $(git diff --stat | tail -1)"
-echo "== suite with patch:"; cargo test --offline 2>&1 | grep -E "test result|FAILED|error" | sort | uniq -c | head
+echo "== suite with patch:"; cargo test --offline 2>&1 | grep -E "test result|FAILED|^error" | sort | uniq -c | head
 echo "== hooks build:"; RUSTFLAGS="--cfg cactusref_verif" cargo build --offline 2>&1 | grep -E "^error|Finished"
-cp $OUT/demo.rs tests/demo_$P.rs
-echo "== demo with patch:"; cargo test --offline --test demo_$P 2>&1 | grep -E "test result|panicked|FAILED|signal|error" | head -5
-git apply -R $OUT/patch.diff
-echo "== demo without patch:"; cargo test --offline --test demo_$P 2>&1 | grep -E "test result|panicked|FAILED|signal|error" | head -5
-rm tests/demo_$P.rs
+if [ -f "$dir/demo.rs" ]; then
+  cp "$dir/demo.rs" tests/demo_seeded.rs
+  echo "== demo with patch (must fail):"; cargo test --offline --test demo_seeded 2>&1 | grep -E "test result|panicked|FAILED|signal|^error" | head -5
+  git apply -R "$dir/patch.diff"
+  echo "== demo without patch (must pass):"; cargo test --offline --test demo_seeded 2>&1 | grep -E "test result|panicked|FAILED|signal|^error" | head -5
+fi
